@@ -43,6 +43,7 @@ Proof.
   - intros u. rewrite HT. destruct (Nat.eqb_spec u t) as [->|Hne]; cbn [started x']; [discriminate|]. apply (J8 s I u).
   - intros _ H0. exfalso. rewrite Htot in H0. pose proof (total_ge (ths s) p). unfold T, getth in Hrp. lia.
   - apply J10_upd; auto. intros (c & Hc). destruct (J10 s I c t Hc) as (_ & _ & Hr' & _ & He' & _). auto.
+  - apply J11_upd; auto.
 Qed.
 
 (* ---------- ALend ---------- *)
@@ -126,6 +127,10 @@ Proof.
       intros El. destruct (J10 s I c0 p0 El) as (Hs0 & Hp0 & Hr0 & Hl0 & He0 & HW0).
       destruct (Nat.eqb_spec p0 c) as [->|Hp0c]; [exfalso; lia|].
       destruct (Nat.eqb_spec p0 t) as [->|Hp0t]; cbn [refs lend excl xp]; repeat split; auto.
+  - intros u p m. rewrite HT.
+    destruct (Nat.eqb_spec u c) as [->|Hn1]; cbn [refs clk xc]; [intros; lia|].
+    destruct (Nat.eqb_spec u t) as [->|Hn2]; cbn [refs clk xp]; [|apply (J11 s I u p m)].
+    intros Hr' Hn Hun. apply (J11 s I t p m Hr' Hn). intros m' Hin Hhb. apply (Hun m' Hin). eapply hb_mono; [exact Hcc|exact Hhb].
 Qed.
 
 (* ---------- AJoinB ---------- *)
@@ -213,6 +218,10 @@ Proof.
     + intros El. destruct (J10 s I c0 p0 El) as (Hs0 & Hp0 & Hr0 & Hl0 & He0 & HW0).
       destruct (Nat.eqb_spec p0 c) as [->|Hp0c]; [exfalso; lia|].
       destruct (Nat.eqb_spec p0 t) as [->|Hp0t]; cbn [refs lend excl xp]; repeat split; auto.
+  - intros u p m. rewrite HT.
+    destruct (Nat.eqb_spec u c) as [->|Hn1]; cbn [refs clk xc]; [intros; lia|].
+    destruct (Nat.eqb_spec u t) as [->|Hn2]; cbn [refs clk xp]; [|apply (J11 s I u p m)].
+    intros Hr' Hn Hun. apply (J11 s I t p m Hr' Hn). intros m' Hin Hhb. apply (Hun m' Hin). eapply hb_mono; [exact Hcc|exact Hhb].
 Qed.
 
 (* ---------- ACloneB: clone through a borrowed handle ---------- *)
@@ -269,4 +278,6 @@ Proof.
   - intros u. rewrite HT. destruct (Nat.eqb_spec u t) as [->|Hne']; cbn [started x']; [discriminate|]. apply (J8 s I u).
   - intros _ H0. lia.
   - apply J10_upd; auto. intros (c0 & Hc0). cbn [refs excl x']. split; [lia|reflexivity].
+  - apply J11_cons; auto.
+    intros u. cbn [val m]. pose proof (total_ge (upd (ths s) t x') u) as Hg. unfold T, getth. cbn [ths]. lia.
 Qed.
